@@ -54,6 +54,7 @@ class Rec:
         self.constrained = constrained
         self.vary_return = True
         self.cost_offset = 0.0       # objectives of large magnitude (1e9 + ...): only for checks that project costs to ranks
+        self.cost_quant = 1          # stepped objectives: costs are multiples of cost_quant * 1e-9 (exact ties between different designs)
         self.handed_out = {}         # design -> the very object the objective returned last (must not be modified by the framework)
         self.script = script or (lambda k, attempt, callno: "ok")
         self.gate = gate
@@ -80,6 +81,10 @@ class Rec:
             self.problem.data_store = _StoreProxy(self, None)
 
     # ---- identification ------------------------------------------------------------------------------
+    def costs_of_ints(self, ints):
+        q = self.cost_quant
+        return [((n // q) * q) / 1e9 + self.cost_offset for n in ints]
+
     def vkey(self, vector):
         t = tuple(float(x) for x in vector)
         with self.lock:
@@ -103,10 +108,10 @@ class Rec:
             want = [float(c) for c in ind.costs]      # the WHOLE stored cost list must be what the objective returned (no extra entries)
         except (TypeError, ValueError):
             return -1                                 # an entry that is not a number (None, a nested list): these are not the objective's costs
-        if [n / 1e9 + self.cost_offset for n in fp_costs(ind.vector, self.m)] == want:
+        if self.costs_of_ints(fp_costs(ind.vector, self.m)) == want:
             return self.vkey(ind.vector)
         for t, k in list(self.vkeys.items()):
-            if [n / 1e9 + self.cost_offset for n in fp_costs(t, self.m)] == want:
+            if self.costs_of_ints(fp_costs(t, self.m)) == want:
                 return k
         return -1
 
@@ -143,7 +148,7 @@ class Rec:
                 self.attempt[k] = 0
                 self.returned[k] = fp_costs(individual.vector, self.m)
                 self.events.append({"ev": "ret", "k": k, "out": "ok"})
-                vals = [n / 1e9 + self.cost_offset for n in self.returned[k]]
+                vals = self.costs_of_ints(self.returned[k])
                 # the objective may hand its costs back as a list, a tuple or a float64 array (and keeps a reference to what it returned)
                 shape = (k + callno) % 5 if self.vary_return else 0
                 if shape == 3:
@@ -231,7 +236,7 @@ class Rec:
             want = d["costs"][:self.m]
             cf = -1
             for t, k in list(self.vkeys.items()):
-                if [n / 1e9 + self.cost_offset for n in fp_costs(t, self.m)] == want:
+                if self.costs_of_ints(fp_costs(t, self.m)) == want:
                     cf = k
                     break
             rows.append({"k": byid[rid], "v": v, "cf": cf, "st": d["state"]})
